@@ -203,6 +203,33 @@ func c12Heartbeats(r *Run, p *Peer, N int, tout, hbi time.Duration, answerAt *in
 		r.Sim.RunFor(tout + 100*time.Millisecond)
 		return t
 	}
+	if r.Ch.Choose(4, "port-closed-at-first-transmission") == 1 {
+		// The peer's PFCP port is closed when the agent's Heartbeat Request arrives
+		// (control plane restarting): ICMP port unreachable, the agent's next read
+		// fails once with ECONNREFUSED. The peer is back for the retransmission and
+		// answers it: the request was answered, the association and its sessions stay.
+		before := len(*order)
+		*answerAt = 0
+		r.W.Net.SetDown(p.Addr, true)
+		r.Sim.RunUntil(func() bool { return r.W.Net.Stats["econnrefused"] > 0 }, r.until(hbi+tout/2))
+		r.W.Net.SetDown(p.Addr, false)
+		*answerAt = -1
+		r.Fault("peer-port-closed-at-first-transmission")
+		r.Skel("port-closed")
+		delBefore := countDeletes(r)
+		r.Sim.RunFor(time.Duration(N+2)*tout + 200*time.Millisecond)
+		r.Op("peer port closed while the agent's heartbeat arrived (ECONNREFUSED seen: %v), open again for the retransmission; %d new heartbeat request(s) seen", r.W.Net.Stats["econnrefused"] > 0, len(*order)-before)
+		if r.W.Net.Stats["econnrefused"] > 0 {
+			if p.Heartbeat() == nil && r.AgentAlive() {
+				r.Violate("C12", "association-lost-although-answered", "the first transmission of a heartbeat hit the peer's closed port (ECONNREFUSED on the agent's socket), the retransmission was answered; the association no longer answers heartbeats\n%s", strings.Join(r.Sim.BlockedTable(), "\n"))
+				return
+			}
+			if len(p.Sessions) > 0 && countDeletes(r) > delBefore {
+				r.Violate("C12", "sessions-removed-although-answered", "sessions were removed from the datapath although the retransmission of the heartbeat was answered (its first transmission had hit the peer's closed port)")
+				return
+			}
+		}
+	}
 	if r.Ch.Choose(4, "reassociate-during-heartbeat") == 1 {
 		// the control plane repeats its Association Setup (restart on the same
 		// address, or a duplicated datagram) while a Heartbeat Request of the agent is
